@@ -387,6 +387,7 @@ static const int DA_OUT_FULL[] = { 0, 1, 2, 7, 8, 9, 15, 16, 17, -1 };
 static const int *DA_IN = DA_IN_FULL, *DA_OUT = DA_OUT_FULL;
 static int NDA_IN = 7, NDA_OUT = 10;
 static int DA_NFLUSH = 3, DA_NEOS = 2;
+static void (*SE_STATE_HOOK)(void); /* called for every newly discovered deflate state (on a scratch copy) */
 static int SE_REQUIRE_PROGRESS; /* C10: a call with end_of_stream, all input offered and avail_out>=1 must consume, produce or change state */ /* flush choices {NO,SYNC,FULL} and eos timing {with last chunk, late} */
 /* choice = ((ia * NDA_OUT + oa) * 3 + flush) * 2 + eos_timing */
 #define NDCHOICE (NDA_IN * NDA_OUT * 3 * 2)
@@ -683,6 +684,10 @@ static void def_on_state(int depth)
 		def_tmpimg = realloc(def_tmpimg, def_tmpcap);
 	}
 	def_save(def_tmpimg);
+	if (SE_STATE_HOOK) {
+		SE_STATE_HOOK();
+		def_restore(def_tmpimg);
+	}
 	def_finish_generously(&def_model, 8);
 	def_restore(def_tmpimg);
 	v_count("progress_checks", 1);
